@@ -439,18 +439,13 @@ HandleDirSize(cs, fsys, req) ==
 
 (***************************************************************************)
 (* A request that stops short (the client hangs up in the middle): the      *)
-(* connection ends without a byte.  One exception is left open: a complete  *)
-(* WRITE_FILE command whose payload is cut short may still be answered with *)
-(* the refusal (-1) before the connection ends, when the write would have   *)
-(* been refused anyway.                                                     *)
+(* connection ends without a byte - also when it is the payload of a        *)
+(* WRITE_FILE that is cut short (what did arrive may have been stored).     *)
 (***************************************************************************)
 HandleTruncated(cs, fsys, req, aw) ==
-  IF req.of = "WRITE_FILE" /\ req.cut >= CommandLen
-  THEN IF ~aw \/ ~cs.wo.open
-       THEN { Outcome(cs, fsys, RNone, TRUE), Outcome(cs, fsys, Res4(-1), TRUE) }
-       \* the part of the payload that did arrive may have been stored and counted before the connection ends
-       ELSE { OutcomeWild(cs, fsys, RNone, TRUE, {cs.wo.path}), OutcomeWild(cs, fsys, Res4(-1), TRUE, {cs.wo.path}),
-              OutcomeWild(cs, fsys, Res4(req.cut - CommandLen), TRUE, {cs.wo.path}) }
+  IF req.of = "WRITE_FILE" /\ req.cut >= CommandLen /\ aw /\ cs.wo.open
+  \* the part of the payload that did arrive may have been stored before the connection ends - but nothing is answered
+  THEN { OutcomeWild(cs, fsys, RNone, TRUE, {cs.wo.path}) }
   ELSE { Outcome(cs, fsys, RNone, TRUE) }
 
 (***************************************************************************)
